@@ -253,3 +253,11 @@ def sample(r):
         return dict(kind='bitmap', options=r['o'], severities=r['sevs'][:6], flag_words=r['flags'][:6],
                     verdict_masks=r['v'][:6])
     return dict(kind='cli', argv=r['argv'], selected=r['selected'][:10], count=r['count'], exit=r['exit'])
+
+
+def corrupt(r):
+    if r['kind'] == 'bitmap':
+        r['v'][0] ^= 1
+    else:
+        r['count'] += 1
+    return r
